@@ -124,7 +124,8 @@ def _subst(node, env, depth=0):
             if isinstance(n.ctx, ast.Load) and n.id in env and depth < 8:
                 return _subst(env[n.id], env, depth + 1)
             return n
-    return T().visit(copy.deepcopy(node))
+    from .front import clone
+    return T().visit(clone(node))
 
 
 def error_estimate_form(repo, fc):
